@@ -567,9 +567,10 @@ Proof.
   assert (Hfl : flag T' = flag (thr s t)).
   { unfold T'. destruct (flag (thr s t)) eqn:F; [exact F|apply next_op_flag]. }
   assert (Hho : holdsb T' = false).
-  { unfold T'. destruct (flag (thr s t)); [reflexivity|apply next_op_holdsb]. }
+  { unfold T'. destruct (flag (thr s t)); [destruct (mk (thr s t)); reflexivity|apply next_op_holdsb]. }
   assert (Htd : todo T' = todo (thr s t)).
-  { unfold T'. destruct (flag _); [apply todo_with_pc; congruence|apply next_op_todo; congruence]. }
+  { unfold T'. destruct (flag _); [|apply next_op_todo; congruence].
+    destruct (mk (thr s t)); apply todo_with_pc; congruence. }
   assert (Hother : forall j, j <= length pl -> j <> i -> cn pl j <> prev (thr s t)).
   { intros j Hj Hne E. apply Hne. apply (cn_inj pl); auto; try lia; congruence. }
   destruct (todo_frame (thr s) t T' _ _ Htd Itdnd Itddis Itd) as (X1 & X2 & X3).
@@ -577,7 +578,7 @@ Proof.
   - apply flag_frame; auto.
   - intros u. thr_cases u t.
     + unfold T'. destruct (flag (thr s t)) eqn:F; [|apply next_op_pp].
-      unfold ppart; cbn [pc with_pc flag]. exact F.
+      unfold ppart; cbn [pc with_pc flag]. destruct (mk (thr s t)); exact F.
     + assert (Q := Ipp u). unfold ppart in *. destruct (pc (thr s u)) eqn:Hu; auto.
       * destruct Q as [Q1 Q2]. split; auto. rewrite upd_other; auto. intros E.
         destruct (Ipend _ Q1) as [_ X]. apply X. rewrite E, <- Pp. apply cn_in; lia.
@@ -587,7 +588,7 @@ Proof.
         apply n. apply (Iuni u t); unfold holdsb; rewrite ?Hu, ?Hpc; auto. congruence.
   - intros u. thr_cases u t; [|apply Iwp].
     rewrite Hfl. intros F. assert (W := Iwp t F). unfold T'; rewrite F.
-    unfold wpart in *. rewrite Hpc in W. cbn [pc with_pc]. exact W.
+    unfold wpart in *. rewrite Hpc in W. cbn [pc with_pc]. destruct (mk (thr s t)); exact W.
   - intros u v. thr_cases u t; thr_cases v t; auto; rewrite ?Hho; discriminate.
   - rewrite upd_other; auto. apply Hother; lia.
   - intros j Hj. destruct (Nat.eq_dec j i) as [->|Hne].
@@ -845,6 +846,28 @@ Proof.
     + exact (i_data _ _ _ _ _ _ I).
 Qed.
 
+(* (10) fast-forward of the fresh worker: the same amount is added to both
+   counters, so in_count - out_count is unchanged and in_count stays >= 1;
+   out_count is written by the worker only, and the worker holds no stale
+   copy of it here (oc T is not constrained at GFfwd / GHead) *)
+Lemma FFAMT_nonneg : (0 <= FFAMT)%Z.
+Proof. unfold FFAMT. lia. Qed.
+
+Lemma gffwd_inv s al pl hl pe w t :
+  Inv s al pl hl pe w -> pc (thr s t) = GFfwd -> Inv (fst (step s t)) al pl hl pe w.
+Proof.
+  intros I Hpc. open_step Hpc. wfacts I t Hpc. destruct W as [Wh Wc].
+  assert (P := FFAMT_nonneg).
+  apply worker_step with (w := w) (hl := hl); [exact I|exact F|exact Hh|reflexivity| | | | | |].
+  - rewrite Htd. reflexivity.
+  - unfold ppart; cbn [pc flag with_pc]. exact F.
+  - intros _. split; [reflexivity|]. split; [lia|].
+    unfold wpart; cbn [pc with_pc]. split; [exact Wh|lia].
+  - cbn [flag with_pc]. rewrite F. discriminate.
+  - exact (i_pre _ _ _ _ _ _ I).
+  - exact (i_data _ _ _ _ _ _ I).
+Qed.
+
 (* ------------------------------------------------------------------ *)
 Theorem linv_step x t : LInv x -> LInv (lstep x t).
 Proof.
@@ -854,6 +877,7 @@ Proof.
   - apply pnext_inv; assumption.
   - apply pxchg_inv; assumption.
   - apply plink_inv; assumption.
+  - apply gffwd_inv; assumption.
   - apply ghead_inv; assumption.
   - apply gnext_inv; assumption.
   - apply gseth_inv; assumption.
